@@ -66,11 +66,11 @@ def main():
         "setup_cmd": "./setup.sh",
         "hooks": {
             "guard": "verif",
-            "enable": "no source hooks: the harness interposes at Go interfaces (Store, BalanceStore, Codec, Service, EthNode, Pool, "
-                      "SettleHandler); the deterministic driver is built with CGO_ENABLED=0 go build -tags faketime, the concurrent "
-                      "driver with -race; the tag `verif` is reserved and unused",
+            "enable": "the harness is built with -tags verif (plus CGO_ENABLED=0 -tags faketime for the deterministic driver, -race for the "
+                      "concurrent one). One hook exists: pool/store/badger calls verifAfterCommit() after every committed read-write "
+                      "transaction; without the tag it is an empty function. Everything else is interposed at Go interfaces in the harness.",
             "baseline_off_cmd": "cd /repo && GOFLAGS=-mod=mod GOPROXY=off GOSUMDB=off GOTOOLCHAIN=local go test -vet=off -count=1 -timeout 25m ./...",
-            "source_commits": [],
+            "source_commits": ["d0489c6"],
             "add_only": True,
         },
         "engines": [
